@@ -272,6 +272,32 @@ func init() {
 			}
 			c01One(c, d, names, c01Spellings[1], fmtTuples[1])
 		}
+		// Part 1e: the size sweep (enum/size.go): every depth and every width up to the bound, each with the follow-up rows
+		// that make a wrong boundary visible
+		// (the library's cost grows with the cube of the depth, so depths get a smaller bound than widths)
+		upTo, far, deepTo, deepFar := 300, 1030, 200, 520
+		if c.Thorough() {
+			upTo, far, deepTo, deepFar = 1100, 4100, 400, 1030
+		}
+		c.Bound("size_sweep_width_every_integer_up_to", fmt.Sprint(upTo))
+		c.Bound("size_sweep_width_power_of_two_neighbours_up_to", fmt.Sprint(far))
+		c.Bound("size_sweep_depth_every_integer_up_to", fmt.Sprint(deepTo))
+		c.Bound("size_sweep_depth_power_of_two_neighbours_up_to", fmt.Sprint(deepFar))
+		sweep := func(s enum.SizeShape) {
+			if !c.Take() || c.Expired() {
+				return
+			}
+			c.StateN(1)
+			c.Nontrivial()
+			c.Inc("size_sweep_cases")
+			c01One(c, s.D, s.Names, c01Spellings[1], fmtTuples[0])
+			if s.Size%3 == 0 {
+				c01One(c, s.D, s.Names, c01Spellings[0], fmtTuples[6])
+			}
+		}
+		enum.DeepShapes(enum.Sizes(deepTo, deepFar), sweep)
+		enum.WideShapes(enum.Sizes(upTo, far), sweep)
+		enum.TwinShapes(sweep) // sibling names that agree on cheap fingerprints (enum/twins.go)
 		// Part 1d: documents whose total size crosses typical buffer sizes, with a root line starting exactly at, just
 		// before and just after the boundary (simple mode; the massive counterpart is C10's bigdoc part)
 		for _, B := range []int{512, 4096, 65536, 1 << 20} {
